@@ -20,10 +20,13 @@ var validTemplates = []string{
 	"vars {\n monetary $mon1\n}\nsend [USD 10] (\n source = @world\n destination = { max $mon1 to @d max [USD 2] kept remaining to @e }\n)",
 	"send [USD *] (\n source = { @a @b allowing overdraft up to [USD 5] max [USD 3] from @c allowing unbounded overdraft }\n destination = { 1/3 to @d 2/3 to @e }\n)",
 	"send [USD 9] (\n source = { 1/2 from @a 1/4 from @b remaining from @c }\n destination = { 50% to @d 25% to { max [USD 1] to @e remaining kept } remaining kept }\n)",
+	"send [USD 10] (\n source = { 9223372036854775808/18446744073709551616 from @a 9223372036854775808/18446744073709551616 from @b }\n destination = { 1/18446744073709551616 to @d 18446744073709551615/18446744073709551616 to @e }\n)",
+	"send [USD 10] (\n source = @world\n destination = { 50.00000000000000000000000000000000000000000000000000000000000000% to @d remaining to @e }\n)",
 	"vars {\n monetary $mon1 = overdraft(@a, USD)\n}\nsend [USD *] (\n source = max $mon1 from { 1/2 from @a 1/2 from @world }\n destination = @d\n)",
 }
 
 var nameTemplates = [][2]string{
+	{"vars {\n account $x\n monetary $z = balance($x, USD)\n account $w\n}\nsend $z (\n source = @world\n destination = $w\n)", "x,z,w"},
 	{"vars {\n monetary $x\n account $y\n}\nsend $x (\n source = $y\n destination = $y\n)", "x,y,z"},
 	{"vars {\n account $x\n asset $y\n monetary $z = balance($x, $y)\n}\nsend $z (\n source = @world\n destination = $x\n)", "x,y,z"},
 	{"vars {\n monetary $x\n monetary $y\n}\nsend [USD 1] (\n source = { max $x from @a @b allowing overdraft up to $y }\n destination = { max $x to @d remaining kept }\n)", "x,y"},
@@ -42,7 +45,7 @@ func init() {
 			}
 			nt := nameTemplates
 			if tier != "thorough" {
-				nt = nt[:4]
+				nt = nt[:5]
 			}
 			for _, t := range nt {
 				cases = append(cases, Case{ID: "names " + strings.ReplaceAll(t[0], "\n", " "), Pkg: "internal/analysis", Fn: "ZZC16Names", Args: []string{t[0], t[1]}, Tag: "names"})
